@@ -123,6 +123,8 @@ fn inputs(ctx: &Ctx) -> Vec<Input> {
         b[0].0 = format!("\u{feff}{}", b[0].0);
         out.push(Input { name: "bom-first-line-starts-with-ef-bb-bf", files: vec![a, b], same_path_twice: false, terminators: 0 });
     }
+    // enough rows that batch size 1 yields thousands of batches in one phase (more than any plausible bounded queue holds)
+    out.push(Input { name: "six-thousand-rows-for-batch-size-1", files: vec![uniq(6000, &mut rng)], same_path_twice: false, terminators: 0 });
     out.push(Input { name: "one-row", files: vec![vec![("solo".to_string(), 77)]], same_path_twice: false, terminators: 0 });
     out.push(Input { name: "empty-input", files: vec![vec![]], same_path_twice: false, terminators: 0 });
     {
@@ -660,6 +662,11 @@ pub fn run(ctx: &Ctx) -> i32 {
                     plan.push((ii, RunCfg { batch: *b, fd: fds[(ii + mi + bi) % 3], threads: ths[(ii + bi) % 4], mode: *m, delay_seed: Some(rng.next() % 1_000_000), stale_output: (ii + mi + bi) % 4 == 0 }));
                 }
             }
+        }
+        // thousands of batches in one phase
+        if let Some(ii) = ins.iter().position(|i| i.name.starts_with("six-thousand-rows")) {
+            plan.push((ii, RunCfg { batch: 1, fd: 15, threads: 4, mode: Mode::Set, delay_seed: None, stale_output: false }));
+            plan.push((ii, RunCfg { batch: 1, fd: 3, threads: 2, mode: Mode::Sum, delay_seed: None, stale_output: true }));
         }
         while plan.len() < nruns {
             let ii = rng.usize(ins.len());
